@@ -242,7 +242,7 @@ impl Elab {
 }
 
 /// returns (program, α-renamed names, #uses, #unbound uses, #shadowing binders)
-pub fn build(body: &XB, with_param: bool, variant_named_x: bool, early_variant_use: bool) -> (Program, Vec<String>, u32, u32, u32) {
+pub fn build(body: &XB, with_param: bool, variant_named_x: bool, early_variant_use: bool, struct_named_x: bool) -> (Program, Vec<String>, u32, u32, u32) {
     let mut el = Elab {
         n: Names::new(),
         unique: Vec::new(),
@@ -268,6 +268,11 @@ pub fn build(body: &XB, with_param: bool, variant_named_x: bool, early_variant_u
     if variant_named_x {
         // an enum of the package with a (lower-case) variant spelled like every binder
         el.items.push(Item::Enum(EnumDef { name: "Low".into(), generics: vec![], variants: vec![("x".into(), vec![]), ("other".into(), vec![Ty::i32()])], derives: vec![] }));
+    }
+    if struct_named_x {
+        // a struct of the package spelled like every binder (a struct is built and matched with field
+        // syntax only: its bare name is no pattern and no expression)
+        el.items.push(Item::Struct(StructDef { name: "x".into(), generics: vec![], fields: vec![("fld".into(), Ty::i32())], derives: vec![] }));
     }
     if early_variant_use {
         // the variant itself is used (bare) before any binder of its spelling is
@@ -325,7 +330,7 @@ impl Family for Scoping {
         &["C05", "C01", "C02", "C04"]
     }
     fn rule(&self) -> &'static str {
-        "binder-shape lattice: every function body made of <= 1 (quick) / <= 2 (thorough) depth-0 statements {let x, let (x,_), show, closure |x|} followed by a depth-1 tail {x, literal, if with one-statement blocks, if whose then-block has two statements (every pair), match binding x, match x => …}, with and without a parameter named x, every binder spelled `x`; every body whose binders are parameters and closure parameters only and whose uses are all bound also in a package that declares an enum with a variant spelled `x` (a pattern of that spelling is a constructor pattern), the enum in the same file, and in a second file of the package with the variant itself used bare in a function that comes first; non-trivial = programs with a use whose innermost binder is shadowing another binder, or with an unbound use; distinct = distinct source text"
+        "binder-shape lattice: every function body made of <= 1 (quick) / <= 2 (thorough) depth-0 statements {let x, let (x,_), show, closure |x|} followed by a depth-1 tail {x, literal, if with one-statement blocks, if whose then-block has two statements (every pair), match binding x, match x => …}, with and without a parameter named x, every binder spelled `x`; every body whose binders are parameters and closure parameters only and whose uses are all bound also in a package that declares an enum with a variant spelled `x` (a pattern of that spelling is a constructor pattern), the enum in the same file, and in a second file of the package with the variant itself used bare in a function that comes first; every body whose uses are all bound also in a package that declares a struct spelled `x`, in the same file and in a second file; non-trivial = programs with a use whose innermost binder is shadowing another binder, or with an unbound use; distinct = distinct source text"
     }
     fn cases(&self, tier: Tier) -> Box<dyn Iterator<Item = Value> + '_> {
         let n = bodies(tier).len();
@@ -347,8 +352,22 @@ impl Family for Scoping {
         let mut count = 0u64;
         let mut reported = std::collections::BTreeMap::<String, u32>::new();
         for (bi, body) in all[lo..hi].iter().enumerate() {
-            for (with_param, variant_named_x, sibling) in [(true, false, false), (false, false, false), (true, true, false), (false, true, false), (true, true, true), (false, true, true)] {
-                let (prog, unique, uses, unbound, shadowing) = build(body, with_param, variant_named_x, sibling);
+            for (with_param, variant_named_x, sibling, struct_named_x) in [
+                (true, false, false, false),
+                (false, false, false, false),
+                (true, true, false, false),
+                (false, true, false, false),
+                (true, true, true, false),
+                (false, true, true, false),
+                (true, false, false, true),
+                (false, false, false, true),
+                (true, false, true, true),
+            ] {
+                let (prog, unique, uses, unbound, shadowing) = build(body, with_param, variant_named_x, sibling && !struct_named_x, struct_named_x);
+                // a use without a binder would name the struct
+                if struct_named_x && unbound > 0 {
+                    continue;
+                }
                 // with a variant spelled x in the package, a use without a binder means the variant
                 // (and a pattern spelled like a variant is a constructor pattern: only parameters and closure
                 // parameters can be binders of that name)
@@ -358,8 +377,14 @@ impl Family for Scoping {
                 count += 1;
                 let text = Printer::new(&prog.names).package(&prog.packages[0]);
                 let text2 = Printer::new(&unique).package(&prog.packages[0]);
-                let site_shape = format!("{}{}{}", shape_of(body), if variant_named_x { ";variant-named-x" } else { "" }, if sibling { ";enum-in-sibling-file;variant-used-earlier" } else { "" });
-                let subcase = json!({"index": lo + bi, "with_param": with_param, "variant_named_x": variant_named_x, "sibling": sibling});
+                let site_shape = format!(
+                    "{}{}{}{}",
+                    shape_of(body),
+                    if variant_named_x { ";variant-named-x" } else { "" },
+                    if struct_named_x { ";struct-named-x" } else { "" },
+                    if sibling && struct_named_x { ";struct-in-sibling-file" } else if sibling { ";enum-in-sibling-file;variant-used-earlier" } else { "" }
+                );
+                let subcase = json!({"index": lo + bi, "with_param": with_param, "variant_named_x": variant_named_x, "sibling": sibling, "struct_named_x": struct_named_x});
                 if shadowing > 0 && uses > 0 || unbound > 0 {
                     rep.more_keys.push(fnv(&text));
                 }
@@ -483,7 +508,7 @@ impl Family for Scoping {
                     let opts = DiffOpts {
                         props_sem: &["C05", "C01"],
                         props_reject: &["C05"],
-                        sibling_file_types: if sibling { &["Low"] } else { &[] },
+                        sibling_file_types: if sibling && struct_named_x { &["x"] } else if sibling { &["Low"] } else { &[] },
                         ..DiffOpts::default()
                     };
                     let mut sub = Report::default();
